@@ -696,6 +696,10 @@ class PackageGenerator:
             m = self.new_module(pk, name)
             self.fill_module(m, r.randint(0, 3), r.randint(0, 3))
 
+        # a parameter that is optional only by its default value (how it is typed depends on mypy's configuration)
+        if self.modules:
+            self.modules[0].body.append("def implicit_optional_param(amount: int = None, label: str = None) -> int:\n    ...\n")
+
         # --- tie probes
         if self.f("HOMONYMS"):
             pa, pb = f"{top}.{sub_a}", f"{top}.{sub_b}" if sub_b != sub_a else top
@@ -740,6 +744,8 @@ class PackageGenerator:
                 "GOOGLE": "Invoice.\n\n    Args:\n        item (Item): what to invoice\n        bulk (BulkItem): more of it\n\n    Returns:\n        Item: the same item\n",
                 "REST": "Invoice.\n\n    :param item: what to invoice\n    :type item: Item\n    :param bulk: more of it\n    :type bulk: BulkItem\n    :returns: the same item\n    :rtype: Item\n",
             }.get(self.doc_style, "Invoice an Item.\n")
+            # a parameter that is optional only by its default value
+            m5.body.append("def implicit_optional(amount: int = None, label: str = None) -> int:\n    ...\n")
             m5.body.append(f'def invoice(item, bulk=None):\n    """{doc}    """\n    return item\n')
 
         if self.f("TIE_REEXPORT"):
@@ -938,7 +944,7 @@ class PackageGenerator:
             mn.body.append(self.gen_function(mn, "PairWorker", mn.qname))
             mn.all_classes += ["HTTPClient", "HttpClient", "_PairWorker"]
             # the ignored-argument idiom: parameters whose names consist of underscores only
-            mn.body.append("def on_pair_event(_, __, value: int = 0, ___: str = '') -> int:\n    return value\n")
+            mn.body.append("def on_pair_event(_, __, value: int = 0, ___: str = '', limit: int = None) -> int:\n    return value\n")
             for nm in ("data_set", "dataSet", "make_item_x", "makeItemX", "HTTPClient", "HttpClient", "_PairWorker", "PairWorker", "on_pair_event"):
                 self.inits[f"{top}.{sub_a}"].append(f"from {mn.qname} import {nm}")
 
